@@ -22,7 +22,82 @@ pub struct VerifAudit<'a, K, V> {
     pub truncated: bool,
 }
 
+/// Structural snapshot taken without trusting any pointer: every address is checked with `live`
+/// before it is dereferenced (used after a panic was injected into user code).
+pub struct VerifWeakAudit {
+    /// forward walk head->tail: node addresses
+    pub forward: Vec<usize>,
+    /// backward walk tail->head: node addresses
+    pub backward: Vec<usize>,
+    /// index entries: (node address, address the KeyRef points to, address of the node's key field)
+    pub index: Vec<(usize, usize, usize)>,
+    /// `map.len()`
+    pub map_len: usize,
+    /// first problem met (dangling pointer, walk too long), if any
+    pub problem: Option<&'static str>,
+}
+
 impl<K, V, E, S> RawLRU<K, V, E, S> {
+    /// Walk the list both ways and dump the index, checking every node address with `live` before
+    /// dereferencing it. Never calls user code.
+    pub fn verif_weak_audit(&self, max_nodes: usize, live: &dyn Fn(usize) -> bool) -> VerifWeakAudit {
+        let mut forward = Vec::new();
+        let mut backward = Vec::new();
+        let mut problem = None;
+        let node_ok = |p: *mut EntryNode<K, V>| !p.is_null() && live(p as usize);
+        unsafe {
+            if !node_ok(self.head) || !node_ok(self.tail) {
+                problem = Some("sentinel freed");
+            } else {
+                let mut p: *mut EntryNode<K, V> = (*self.head).next;
+                while p != self.tail {
+                    if !node_ok(p) {
+                        problem = Some("dangling node reachable by next");
+                        break;
+                    }
+                    if forward.len() >= max_nodes {
+                        problem = Some("forward walk does not end");
+                        break;
+                    }
+                    forward.push(p as usize);
+                    p = (*p).next;
+                }
+                let mut p: *mut EntryNode<K, V> = (*self.tail).prev;
+                while p != self.head {
+                    if !node_ok(p) {
+                        problem = Some("dangling node reachable by prev");
+                        break;
+                    }
+                    if backward.len() >= max_nodes {
+                        problem = Some("backward walk does not end");
+                        break;
+                    }
+                    backward.push(p as usize);
+                    p = (*p).prev;
+                }
+            }
+        }
+        let mut index = Vec::new();
+        for (kr, n) in self.map.iter() {
+            let node = n.as_ptr();
+            if !node_ok(node) {
+                problem = Some("index holds a dangling node");
+                index.push((node as usize, kr.k as usize, 0));
+            } else {
+                index.push((node as usize, kr.k as usize, unsafe {
+                    (*node).key.as_ptr() as usize
+                }));
+            }
+        }
+        VerifWeakAudit {
+            forward,
+            backward,
+            index,
+            map_len: self.map.len(),
+            problem,
+        }
+    }
+
     /// Walk the list both ways and dump the index. Never calls user code.
     pub fn verif_audit(&self, max_nodes: usize) -> VerifAudit<'_, K, V> {
         let mut forward = Vec::new();
